@@ -64,3 +64,21 @@ Print Assumptions C10_reachable_listing_partial.
 Theorem C10_reachable_listing_unrestricted_refuted : ~ (forall nw, stmt_reachable_listing nw).
 Proof. exact reachable_listing_refuted. Qed.
 Print Assumptions C10_reachable_listing_unrestricted_refuted.
+
+(** tours: for every history of public modifications whose Path arguments are valid Paths ([vreachable]; Path::new
+    is the only public constructor of a Path from nodes) over a well-formed network, every real tour is a path from
+    a start depot to an end depot over activities of the vehicle's type whose consecutive nodes are connectable,
+    and every dummy tour is a non-empty depot-free chronological list. (Before the repair "fix: dummy tours keep the
+    maintenance nodes of their path" this statement was false: SchedToursFacts.v keeps the witness.) *)
+From RS Require Import SchedToursFacts.
+Theorem C10_reachable_tours_valid : forall nw, stmt_vreachable_tours nw.
+Proof. exact vreachable_tours. Qed.
+Print Assumptions C10_reachable_tours_valid.
+Theorem C10_valid_path_histories_are_histories : forall nw, stmt_vreachable_reachable nw.
+Proof. exact vreachable_reachable. Qed.
+Print Assumptions C10_valid_path_histories_are_histories.
+Theorem C10_old_dummy_constructor_breaks_paths :
+  exists nw path dt, net_ok_b nw = true /\ TourStmts.connected nw path /\ tour_new_dummy_prefix nw path = Ok dt /\
+                     ~ TourStmts.connected nw (t_nodes dt).
+Proof. exact tour_new_dummy_prefix_breaks_connectivity. Qed.
+Print Assumptions C10_old_dummy_constructor_breaks_paths.
